@@ -126,6 +126,9 @@ func main() {
 		os.Exit(2)
 	}
 	tLoad := time.Since(t0)
+	if *flagV {
+		fmt.Fprintf(os.Stderr, "loaded + SSA built in %v\n", tLoad.Round(time.Millisecond))
+	}
 
 	stats := &interp.SolverStats{}
 	incMs, shotSec := 5000, 30
